@@ -529,7 +529,7 @@ theorem policy_fields_follow_config (cfg : Option RetryCfg) : effectivePolicy cf
   effective_eq_spec cfg
 
 /-- the same, field by field, for a configured policy -/
-theorem policy_fields_follow_config' (c : RetryCfg) :
+theorem policy_fields_reach_accessors (c : RetryCfg) :
     (effectivePolicy (some c)).retryOn = c.retryOn ∧ (effectivePolicy (some c)).tryTimeout = c.retryTimeout ∧
     (effectivePolicy (some c)).numRetries = (c.numRetries : Int) ∧ (effectivePolicy (some c)).statusCodes = c.statusCodes.map Int.ofNat := by
   rw [policy_fields_follow_config]; exact ⟨rfl, rfl, rfl, rfl⟩
@@ -541,7 +541,7 @@ theorem try_timeout_effective (parseInt : String → Option Int) (c : RetryCfg) 
     effectiveTimeouts parseInt (some c) rg hT hG vT vG =
       (specGlobal parseInt 0 true rg hG vG, specTry parseInt 0 0 true rg c.retryTimeout hT hG vT vG) := by
   unfold effectiveTimeouts
-  rw [timeout_precedence, (policy_fields_follow_config' c).2.1]
+  rw [timeout_precedence, (policy_fields_reach_accessors c).2.1]
 
 /-- … and when neither a per-try header nor a per-try variable overrides (absent or not numeric), the per-try timeout of the
 request IS the route's `retry_timeout` (disabled only when it is not below the effective global timeout) — whatever `retry_on` -/
